@@ -12,7 +12,7 @@ DELIM = H.DELIM
 WS = b' \t\n\r\x0b\x0c'
 
 # ------------------------------------------------------------------ implementation side
-def run_stream_obs(segments, filters, use_filter=True):
+def run_stream_obs(segments, filters, use_filter=True, forms=None):
     """As saxpath.run_stream, plus the observations.  -> (results per request, obs)
     obs = dict(reads=[state after each read...], outs=[(via_sax, raw message)...], fed=[bytes per reply, oldest first],
                raised=[bool per reply: a feed() raised], died=exception class name or None)
@@ -21,9 +21,6 @@ def run_stream_obs(segments, filters, use_filter=True):
     from xml.sax import expatreader
     from ncclient.transport.third_party.junos import parser as P
     from ncclient.transport.parser import DefaultXMLParser
-    from ncclient.operations.third_party.juniper.rpc import ExecuteRpc
-    from ncclient.operations import RaiseMode
-    from ncclient.xml_ import NCElement
     log = dict(reads=[], outs=[], fed=[b''], raised=[False], died=None)
 
     class RecParser(expatreader.ExpatParser):
@@ -63,30 +60,12 @@ def run_stream_obs(segments, filters, use_filter=True):
                 if log['died'] is None and not self._closing.is_set(): log['died'] = type(err).__name__
                 return base._dispatch_error(self, err)
         s.__class__ = Obs
-        objs = []
-        for f in filters:
-            o = ExecuteRpc(s, dh, async_mode=True, raise_mode=RaiseMode.NONE, timeout=1)
-            o.request('<get-software-information/>', filter_xml=f)
-            objs.append(o)
+        objs = H.issue_requests(s, dh, filters, forms)
         s.segments = list(segments)
         s.run()
     finally:
         P.make_parser = orig
-    res = []
-    for o in objs:
-        if o.reply is not None:
-            raw = o.reply._raw
-            try:
-                o.reply.parse()
-                tr = NCElement(o.reply, dh.transform_reply()).tostring
-                if isinstance(tr, bytes): tr = tr.decode()
-            except Exception as e:
-                tr = 'EXC:' + type(e).__name__
-            res.append(('reply', raw, tr))
-        elif o.error is not None:
-            res.append(('error', type(o.error).__name__))
-        else:
-            res.append(('pending',))
+    res = H.collect_results(objs, dh)
     return res, log
 
 # ------------------------------------------------------------------ oracle side of the model
